@@ -184,6 +184,11 @@ class KindAnalysis:
                         env[name] = frozenset(ks)
                     elif isinstance(v, ast.Name) and v.id in env:
                         env[name] = env[v.id]
+                    elif isinstance(v, ast.BoolOp) and isinstance(v.op, ast.Or) and len(v.values) == 2 and isinstance(strip_await(v.values[0]), ast.Call) \
+                            and isinstance(strip_await(v.values[0]).func, ast.Attribute) and strip_await(v.values[0]).func.attr == "get" \
+                            and isinstance(strip_await(v.values[0]).func.value, ast.Name) and strip_await(v.values[0]).func.value.id in env and isinstance(v.values[1], ast.Constant):
+                        # X.get(k) or <literal>: the truthy kinds of any request value, or the literal
+                        env[name] = frozenset((set(ALL) - FALSY) | lit_kind(v.values[1]))
                     else:
                         env.pop(name, None)
             elif isinstance(s, ast.If):
